@@ -1,4 +1,5 @@
 import PlumVerif.Model.Pool
+import PlumVerif.Model.Fanout
 import PlumVerif.Spec.C09
 /- line-protocol front end for the C09 pool machine
 
@@ -94,7 +95,77 @@ def judge (n : Nat) (net : NetInfo) (frames : List Frame) (o : C09.Obs) : String
   else if !C09.balanced n o then "fail:accounting-unbalanced-or-consumer-lost-or-shutdown-stuck"
   else if C09.spec n net frames o then "pass" else "fail:spec"
 
+/-! sub-device fan-out (Model/Fanout.lean)
+
+  message word  <m|t><s|p>:<slot>,<slot>,…    slot = `-` (absent) or the block token; `ms:` = no slots
+  fan <msg>…                    -> per message `<delivs> <announced> <mixers> <thermostats>` separated by " ; "
+                                   delivs: - | idx.obj.blk,…   registries: - | idx.obj,…   announced: n | registry
+  fanjudge <msg>… | <out> ; <out> ; …   -> pass | fail   (Fanout.spec on an observation) -/
+def parseSlot (x : String) : Option (Option Nat) :=
+  if x = "-" then some none else x.toNat?.map some
+
+def parseSlots (sl : String) : Option (List (Option Nat)) :=
+  if sl = "" then some [] else (sl.splitOn ",").mapM parseSlot
+
+open Fanout in
+def parseMsg (w : String) : Option Fanout.Msg :=
+  match w.splitOn ":" with
+  | [hd, sl] => do
+    let (f, p) ← match hd with
+      | "ms" => some (Fam.mixer, Part.sensors) | "mp" => some (Fam.mixer, Part.params)
+      | "ts" => some (Fam.thermostat, Part.sensors) | "tp" => some (Fam.thermostat, Part.params)
+      | _ => none
+    let slots ← parseSlots sl
+    pure ⟨f, p, slots⟩
+  | _ => none
+
+def showReg (r : Fanout.Reg) : String := showL (r.map fun e => s!"{e.1}.{e.2}")
+
+def showOut (o : Fanout.Out) : String :=
+  let a := match o.announced with | none => "n" | some r => showReg r
+  s!"{showL (o.delivs.map fun d => s!"{d.idx}.{d.obj}.{d.blk}")} {a} {showReg o.mixers} {showReg o.therms}"
+
+def parseNats (w : String) : Option (List Nat) := (w.splitOn ".").mapM String.toNat?
+
+def parseReg (w : String) : Option Fanout.Reg :=
+  parseL w fun x => do
+    match ← parseNats x with
+    | [i, o] => some (i, o)
+    | _ => none
+
+def parseOut (ws : List String) : Option Fanout.Out :=
+  match ws with
+  | [d, a, m, t] => do
+    let d ← parseL d fun x => do
+      match ← parseNats x with
+      | [i, o, b] => some (⟨i, o, b⟩ : Fanout.Deliv)
+      | _ => none
+    let a ← if a = "n" then some none else (parseReg a).map some
+    pure ⟨d, a, ← parseReg m, ← parseReg t⟩
+  | _ => none
+
+def splitSemi (ws : List String) : List (List String) :=
+  ws.foldr (fun w acc =>
+    match acc with
+    | [] => if w = ";" then [[], []] else [[w]]
+    | g :: gs => if w = ";" then [] :: g :: gs else (w :: g) :: gs) []
+
+def fanOps : List String → Option String
+  | "fan" :: ws => do
+    let ms ← ws.mapM parseMsg
+    pure (String.intercalate " ; " ((Fanout.run ms).map showOut))
+  | "fanjudge" :: rest =>
+    match splitBar rest with
+    | [mws, ows] => do
+      let ms ← mws.mapM parseMsg
+      let os ← (if ows.isEmpty then some [] else (splitSemi ows).mapM parseOut)
+      pure (if Fanout.spec ms os then "pass" else "fail")
+    | _ => none
+  | _ => none
+
 def poolOps : List String → Option String
+  | "fan" :: ws => fanOps ("fan" :: ws)
+  | "fanjudge" :: ws => fanOps ("fanjudge" :: ws)
   | "c09" :: contain :: n :: net :: ver :: rest => do
     let contain ← parseBit contain
     let n ← n.toNat?
